@@ -839,7 +839,7 @@ class Execution:
                 got = (rec['name'], rec['resname'], rec['resid'] % mod)
                 # over-long names are truncated to the column width, from either end depending on the alignment
                 same = (rec['name'] in (tokens[4][:width], tokens[4][-width:]) and rec['resname'] in (tokens[3][:rwidth], tokens[3][-rwidth:])
-                        and str(int(tokens[2]))[-(len(str(mod)) - 1):].lstrip('-') == str(rec['resid'])[-(len(str(mod)) - 1):].lstrip('-'))
+                        and int(tokens[2]) % mod == rec['resid'] % mod)
                 if not same:
                     raise Violation('atom-for-atom:' + fmt, expected={'itp': want, 'molecule': j, 'atom': k + 1}, actual={fmt: got},
                                     signature='atom-for-atom:' + fmt, detail=repr(op))
